@@ -12,7 +12,8 @@ RULE = ('cases = (a) header lists with duplicates (case variants) through rename
         'the stripper/limiter/stringer wrappers, (c) generated CSV files (quotes, delimiters, LF inside cells, unicode, '
         'numeric-looking and empty cells, duplicate headers) loaded with infer/cast strategies, strip, limit_rows, '
         'deduplicate flags and on_error policies, (d) the CSV reader/writer models against Python\'s csv on well-formed '
-        'and malformed text; non-trivial = duplicates present / a value changes / a cell needs quoting; distinct = digest')
+        'and malformed text; non-trivial = duplicates present / a value changes / a cell needs quoting; distinct = digest'
+        '; round 4: extract_missing_values (sources, target name) x cast strategies on files with sentinel cells')
 TRUSTED = ['Coq 8.16.1 kernel + vm_compute', 'harness/p13.py printers and oracle',
            'tabulator (third party) reads the file: dialect sniffing and type inference are outside the model; its deviations are findings',
            'Python csv.reader/csv.writer are the reference the CSV model is compared with']
